@@ -13,7 +13,8 @@ Inductive op :=
 | OStep | OStepN (n : Z) | OIrq (v : Z) | OBnd | OInt (v : Z) | OTick (n : Z)
 | ORun (fuel : Z) (script : list (list (list Z)))   (* Cpu::run with a scripted control socket *)
 | OLoad (file args : list Z)                      (* elf::load *)
-| OWr (sz addr v : Z) | ORd (sz addr : Z).   (* 16/32-bit big-endian access through the CPU helpers *)
+| OWr (sz addr v : Z) | ORd (sz addr : Z)
+| OWrA (mode sz addr v : Z) | ORdA (mode sz addr : Z).   (* through the @aa:8 / @aa:16 / @aa:24 helpers (mode 8 / 16 / 24) *)   (* 16/32-bit big-endian access through the CPU helpers *)
 
 Inductive res := ROk | ROkV (v : Z) | RErr | RPanic.
 
@@ -49,6 +50,12 @@ Definition run_op (o : op) (s : cpu) : res * cpu :=
   | OLoad f args => match load f args s with Some s' => (ROk, s') | None => (RPanic, s) end
   | OWr sz a v => match write_abs24 sz a v s with Ok _ s' => (ROk, s') | Err => (RErr, s) | Panic => (RPanic, s) end
   | ORd sz a => match read_abs24 sz a s with Ok v s' => (ROkV v, s') | Err => (RErr, s) | Panic => (RPanic, s) end
+  | OWrA mode sz a v =>
+    let ea := if mode =? 8 then get_addr_abs8 a else if mode =? 16 then get_addr_abs16 a else a in
+    match write_abs24 sz ea v s with Ok _ s' => (ROk, s') | Err => (RErr, s) | Panic => (RPanic, s) end
+  | ORdA mode sz a =>
+    let ea := if mode =? 8 then get_addr_abs8 a else if mode =? 16 then get_addr_abs16 a else a in
+    match read_abs24 sz ea s with Ok v s' => (ROkV v, s') | Err => (RErr, s) | Panic => (RPanic, s) end
   end.
 
 Definition is_stop (r : res) : bool := match r with RErr | RPanic => true | _ => false end.
